@@ -76,7 +76,7 @@ pub fn run(ctx: &mut Ctx) {
 			ctx,
 			fam,
 			n,
-			|| (gen::arb_value(print_value_cfg()), arb_optcase(), any::<bool>()),
+			|| (gen::arb_doc_value(print_value_cfg()), arb_optcase(), any::<bool>()),
 			|(v, oc, route)| match property(v, oc, *route) {
 				Ok((nt, classes)) => Outcome::ok(nt, classes),
 				Err(m) => Outcome::fail(m),
@@ -92,7 +92,7 @@ pub fn run(ctx: &mut Ctx) {
 			ctx,
 			fam,
 			n,
-			|| (gen::arb_container_value(print_value_cfg()), refprint::arb_custom_opts(), any::<u16>(), 0u8..3, -1i8..=1, -1i8..=1),
+			|| (prop_oneof![6 => gen::arb_container_value(print_value_cfg()), 1 => gen::arb_large_value(true)], refprint::arb_custom_opts(), any::<u16>(), 0u8..3, -1i8..=1, -1i8..=1),
 			|(v, base, sel, mode, dw, dn)| {
 				let o = relative(v, base, *sel, *mode, *dw, *dn);
 				match property(v, &OptCase::Custom(o), false) {
